@@ -870,3 +870,20 @@ Proof.
   cbn [fold_left]. apply IH. unfold feed. destruct (k_crash s || negb (k_tr s)); [exact Hs|].
   apply data_received_wf. exact Hs.
 Qed.
+
+(* ---------------------------------------------------------------------------------------- *)
+(* EOF from the SOCKS client before its request is complete *)
+
+Theorem socks_eof_incomplete_fixed : forall fx chunks,
+  let s := feed_all fx chunks in
+  k_h s <> HNone ->
+  k_tr (fst (seof true s)) = false /\ snd (seof true s) = false /\ k_req (fst (seof true s)) = k_req s.
+Proof.
+  intros fx chunks s Hh. unfold seof. destruct (k_h s) eqn:E; try (exfalso; apply Hh; reflexivity);
+    cbn; unfold sclose; destruct (k_tr s) eqn:Ht; cbn; rewrite ?Ht; repeat split; reflexivity.
+Qed.
+
+Theorem socks_eof_incomplete_old_refuted : exists chunks,
+  let s := feed_all true chunks in
+  k_h s <> HNone /\ k_req s = None /\ k_tr (fst (seof false s)) = true /\ snd (seof false s) = true.
+Proof. exists [[5]]. vm_compute. repeat split; discriminate. Qed.
